@@ -265,9 +265,8 @@ def parse_records(path):
                     cur["obs"] = line[2:]
                 continue
             if c == "!":
-                (cur["bangs"] if cur is not None and cur["obs"] is None else loose).append(line[2:])
-                if cur is not None and cur["obs"] is not None:
-                    pass
+                # a failure line belongs to the operation it was printed under (before or after its observation)
+                (cur["bangs"] if cur is not None else loose).append(line[2:])
                 continue
             cur = {"op": line, "obs": None, "bangs": []}
             recs.append(cur)
@@ -299,13 +298,15 @@ def obs_equal(op, impl, model, cfg):
     if tag == "search" and impl is not None and model is not None:
         # impl: search Ok <score> <move> [BOARD-CHANGED]; model: search Ok <score> {attaining moves}
         mi = re.match(r"search Ok (-?\d+) (\S+)$", impl)
-        mm = re.match(r"search Ok (-?\d+) \{(.*)\}$", model)
+        mm = re.match(r"search Ok (-?\d+) \{(.*)\} \{(.*)\}$", model)
         if mi and mm:
+            if cfg.get("search_mode") == "legal":     # C07: any legal move, board untouched
+                return mi.group(2) in mm.group(3).split(" ")
             return mi.group(1) == mm.group(1) and mi.group(2) in mm.group(2).split(" ")
         return impl == model
-    if tag == "gengine" and impl is not None and model is not None:
-        mi = re.match(r"gengine Ok (\S+)$", impl)
-        mm = re.match(r"gengine \{(.*)\}$", model)
+    if tag in ("gengine", "gselect") and impl is not None and model is not None:
+        mi = re.match(r"%s Ok (\S+)$" % tag, impl)
+        mm = re.match(r"%s \{(.*)\}$" % tag, model)
         if mm:
             legal = [x for x in mm.group(1).split(" ") if x]
             if not legal:
@@ -422,6 +423,7 @@ def run_property(pid, tier, seed, replay=None):
     t0 = time.time()
     cfg = PROPS.CONFIG[pid]
     wdir = os.path.join(WORK, pid)
+    replay_body = json.load(open(replay)) if replay else None   # read before the work dir is cleared
     if os.path.isdir(wdir):
         shutil.rmtree(wdir)
     os.makedirs(wdir)
@@ -449,7 +451,7 @@ def run_property(pid, tier, seed, replay=None):
             raise Broken("harness zobrist dump failed", err)
         jobs = []
         if replay:
-            body = json.load(open(replay))
+            body = replay_body
             sf = os.path.join(wdir, "replay_scenario.txt")
             open(sf, "w").write("\n".join(body.get("scenario") or []) + "\n")
             jobs.append((["replay", "file=" + sf], "replay"))
